@@ -330,7 +330,7 @@ func c03RunCtx(cs c03Case) (res c03Res) {
 			case <-st.heldCh:
 				// the request is outstanding (the peer has it and will not answer for now): abandon the call
 				cancel()
-			case <-time.After(cliDeadline):
+			case <-time.After(cliCase.Load().Wait(cliDeadline)):
 			}
 		}()
 		var fis []os.FileInfo
@@ -398,14 +398,16 @@ func c03RunCtx(cs c03Case) (res c03Res) {
 	go func() { client.Close(); close(closed) }()
 	select {
 	case <-peerDone:
-	case <-time.After(cliDeadline):
+	case <-cliCase.Load().After(cliDeadline):
+		cliCase.Load().Fired()
 		fail("tie/peer", "scripted peer did not finish", nil)
 		res.ExitNow = true
 	}
 	peer.Shutdown()
 	select {
 	case <-closed:
-	case <-time.After(cliDeadline):
+	case <-cliCase.Load().After(cliDeadline):
+		cliCase.Load().Fired()
 		fail("close-hang", "Client.Close did not return within 20 s", cliDescribe(cliGoroutines2()))
 		res.ExitNow = true
 	}
